@@ -25,7 +25,7 @@ def maybe_history(rng, spec, prob=0.3, reload_prob=0.15):
     the project is written to JSON and read back *into the same object* in between."""
     if rng.random() < prob:
         k = rng.choice([None, None, rng.randint(0, 8), rng.randint(1, 15)])
-        flags = rng.choice([(True, True), (True, True), (False, False), (True, False), (False, True)])
+        flags = rng.choice([(True, True), (True, True), (False, False), (True, False), (True, False), (False, True)])
         spec["history"] = {"k": k, "state": flags[0], "log": flags[1], "reload": rng.random() < reload_prob}
         if rng.random() < 0.3:
             spec["history"]["first_absence"] = gen.gen_absence(rng, 12, rng.randint(1, 5))  # the first call had other absence steps
@@ -64,6 +64,8 @@ def maybe_org_edit(rng, spec, prob=0.3):
         h["org_edit"] = ops
         if h.get("k") is None:
             h["k"] = rng.randint(0, 12)  # the model before the edit may be unservable: its run is cut off, not run to the limit
+        if rng.random() < 0.5:
+            h["log"] = False  # (state reset, logs kept: what is cached per project survives, what is cached per state does not)
     return spec
 
 
